@@ -340,6 +340,14 @@ def negFunc {F : Type} [Neg F] (evaluate : List F → F × List F) (x : List F) 
   let r := evaluate x
   (-r.1, r.2.map (fun g => -g))
 
+/-- `negative_llhratio_func_nr1d_ns` of `TCLLHRatio.maximize_with_1d_newton_rapson_minimizer`: value, first and
+second derivative w.r.t. the fit parameter `nsIdx` of the negated llh ratio, all taken **at the point asked for**
+(the source parameters are derived from that point on every call).  `none` = `IndexError`. -/
+def negNrFunc {F : Type} [Neg F] (evaluate : List F → F × List F) (grad2 : List F → F) (nsIdx : Nat)
+    (x : List F) : Option (Eval F) :=
+  let r := evaluate x
+  (r.2[nsIdx]?).map (fun g => { f := -r.1, fp := -g, fpp := -(grad2 x) })
+
 section wrapperE
 variable {F : Type} [LT F] [DecidableLT F] [BEq F]
 
